@@ -24,7 +24,7 @@ RULE = ("texts: every subset of {0..11} as a shuffled comma list (quick and thor
         "iteration, len, str(), repr(), obj[k] (inside and beyond the end), == against a freshly parsed range and the raw obj.data "
         "(reverse must show in as_list only; reading must not change the object); the "
         "generator steers values to members / non-members and keeps append(member, ignore_errors=True) (known finding "
-        "FC14a, after which the oracle stops judging that sequence) to a small share. A float range ('' only) gets "
+        "FC14a, repaired) in about half of the ignore_errors appends. A float range ('' only) gets "
         "reads only. Anchored statements executed by the quick run: 194 of 326 (was 141); the 132 left are "
         "trunk_vlans_allowed (73, checked by C19), interface / str / float member branches (C15 or unsupported), debug "
         "logging and unreachable branches (notes/coverage/C14.json).")
@@ -42,7 +42,7 @@ LEVEL_TEXT = ("Theorems (Lean 4, all inputs, no bound on size or magnitude): acc
               "float for every non-empty text); as_list_ordered / as_set_members (for every state and every cast str/int/float/auto the view "
               "holds each member once, ascending, descending exactly under reverse=True); appendX_plain / removeX_plain (default flags = "
               "append / remove), appendX_ignore_new, removeX_ignore, appendX_other_forms (sort=False, str and non-numeric values), "
-              "appendX_ignore_dup_witness (known finding FC14a: append(member, ignore_errors=True) leaves the member twice); readersX_pure, "
+              "appendX_ignore_member / appendX_ignore_keeps_ascending (append(member, ignore_errors=True) is a no-op and the range stays strictly ascending; FC14a repaired by /repo aef5a7a); readersX_pure, "
               "readersX_pure_seq, failedX_pure, stepX_old_state; reverse_only_in_as_list / reverse_not_in_readers (every call other than as_list answers "
               "and acts the same under either reverse flag), further_readers (obj.data = iteration, obj[k] and its IndexError, == against a freshly parsed range). "
               "The model is tied to CiscoRange(result_type=int) by differential runs on every check "
@@ -138,10 +138,8 @@ def _rand_xops(rng, text):
                                                                                               max(0, len(cur) - 1)])]))
         elif r < 0.7:
             ign = rng.choice("01")
-            if ign == "1" and n in cur and rng.random() < 0.85:
-                # appending a member with ignore_errors=True is the known finding FC14a, after which the oracle stops
-                # judging the sequence: keep it to a small share
-                n = max(cur) + rng.choice([1, 2, 3])
+            # appending a member with ignore_errors=True must leave the range unchanged (FC14a, repaired by /repo aef5a7a):
+            # about half of the ignore_errors appends hit a member
             val = rng.choice(["i%d" % n] * 5 + ["s%d" % n] * 2 + ["j"])
             ops.append("appx:%s:%s%s" % (val, rng.choice("1110"), ign))
             if val != "j":
@@ -622,9 +620,8 @@ def _oracle_x(case, ans):
 
 
 def known_id(case, failure):
-    if ("x" in case and failure.startswith("duplicate-after-ignore:")
-            and any(o.startswith("appx:") and o.endswith("1") for o in case["ops"])):
-        return "FC14a"
+    # FC14a (append(member, ignore_errors=True) added the member a second time) is repaired (/repo aef5a7a): a
+    # "duplicate-after-ignore" failure is an ordinary violation again
     return None
 
 
